@@ -7,6 +7,8 @@ from concurrent.futures import ThreadPoolExecutor
 sys.path.insert(0, "/verif")
 from sa.selftest import make_copy
 ready = open("/verif/sa/rules/READY").read().split()
+if os.environ.get("VERIF_PROPS"):
+  ready = [p for p in ready if p in os.environ["VERIF_PROPS"].split()]
 dirs = sys.argv[1:] or sorted(glob.glob("/verif/benign/*"))
 diffs = [f for d in dirs for f in sorted(glob.glob(os.path.join(d, "*.diff")))]
 def one(diff):
